@@ -23,7 +23,7 @@ HeapValues == <<
   O(<< <<"a", JStr("x")>>, <<"b", JInt(2)>> >>), O(<< <<"a", JStr("x")>>, <<"z", JStr("y")>> >>),
   O(<< <<"z", JInt(1)>> >>), O(<< <<"a", JStr("x")>>, <<"class", JInt(3)>> >>), JInt(5),
   O(<< <<"a", JStr("xy")>>, <<"b", JStr("q")>> >>), O(<< <<"a", JStr("xy")>> >>),
-  JArr(<<JInt(1)>>), JArr(<<JStr("x"), JStr("y")>>) >>
+  JArr(<<JInt(1)>>), JArr(<<JStr("x"), JStr("y")>>), JArr(<<JInt(1), JStr("x")>>), JArr(<<JInt(1), JInt(2)>>) >>
 
 E0 == Mk("Element", [properties |-> << Prop("a", "a", TRUE,
                                             MkComp("AllOf", << StringE, Mk("Element", [minLength |-> 1]) >>, EmptyKw)),
@@ -39,8 +39,9 @@ DProps == << Prop("b", "b", FALSE, Mk("Integer", [default |-> JInt(1)])),
 
 (* class F(C, minProperties=0): pass  -- a subclass that declares no property of its own *)
 FKw == [minProperties |-> 0]
-(* an element that starts with an EMPTY property dictionary *)
-N0 == Mk("Element", [properties |-> <<>>])
+(* an element that starts with an EMPTY property dictionary; it also carries tuple items with *)
+(* a schema for the items beyond the tuple                                                   *)
+N0 == Mk("Element", [properties |-> <<>>, itemsT |-> << IntegerE >>, additionalItems |-> StringE])
 Targets == {"E", "C", "D", "F", "N"}
 Children == {"D", "F"}
 Init == /\ heap = [x \in Targets |-> IF x = "E" THEN E0 ELSE IF x = "C" THEN C0
@@ -55,7 +56,8 @@ SetChoices == {
   <<"required", <<"b">> >>, <<"patternProperties", << <<"^a", IntegerE>> >> >>,
   <<"const", O(<< <<"a", JStr("x")>> >>)>>, <<"default", O(<< <<"a", JStr("x")>> >>)>>,
   <<"propertyNames", Mk("String", [maxLength |-> 1])>>,
-  <<"items", IntegerE>>, <<"minItems", 2>>, <<"minimum", JInt(7)>> }
+  <<"items", IntegerE>>, <<"minItems", 2>>, <<"minimum", JInt(7)>>,
+  <<"additionalItemsB", FALSE>>, <<"additionalItems", IntegerE>> }
 
 (* a parent that sets every class keyword, for the subclass (merge) events *)
 P0 == MkObj("P", [default |-> O(<< <<"a", JStr("x")>> >>), enum |-> << O(<< <<"a", JStr("x")>> >>), JNull >>,
@@ -94,8 +96,9 @@ Step(o, newheap, outcome) ==
 NoOutcome == [kind |-> "none", out |-> NP]
 
 InstanceOnly == {"items", "minItems", "minimum"}   \* not class keywords: only meaningful on E
+TupleOnly == {"additionalItemsB", "additionalItems"}   \* only meaningful next to tuple items: N
 SetKeyword == \E x \in Targets, c \in SetChoices :
-  (c[1] \in InstanceOnly => x = "E") /\
+  (c[1] \in InstanceOnly => x = "E") /\ (c[1] \in TupleOnly => x = "N") /\
   Step(Op("set", x, <<c[1], c[2]>>), [heap EXCEPT ![x] = SetKw(@, c[1], c[2])], NoOutcome)
 ClearKeyword == \E x \in Targets : \E kw \in DOMAIN heap[x].kw \ {"properties"} :
   Step(Op("clear", x, <<kw, 0>>), [heap EXCEPT ![x] = DelKw(@, kw)], NoOutcome)
@@ -104,6 +107,11 @@ PutProperty == \E x \in Targets, p \in PropChoices :
 DelProperty == \E x \in Targets : \E i \in 1..Len(PropsOf(heap[x])) :
   Step(Op("delprop", x, <<PropsOf(heap[x])[i].attr, 0>>),
        [heap EXCEPT ![x] = RemoveProp(@, PropsOf(heap[x])[i].attr)], NoOutcome)
+MoveProperty == \E x \in Targets : \E i \in 1..Len(PropsOf(heap[x])) :
+  LET a == PropsOf(heap[x])[i].attr IN
+  /\ ~HasProp(heap[x], a \o "_moved")
+  /\ Step(Op("moveprop", x, <<a, a \o "_moved">>),
+          [heap EXCEPT ![x] = MoveProp(@, a, a \o "_moved")], NoOutcome)
 ToggleReq == \E x \in Targets : \E i \in 1..Len(PropsOf(heap[x])) :
   Step(Op("togglereq", x, <<PropsOf(heap[x])[i].attr, 0>>),
        [heap EXCEPT ![x] = ToggleRequired(@, PropsOf(heap[x])[i].attr)], NoOutcome)
@@ -112,7 +120,7 @@ Validate == \E x \in Targets : \E i \in 1..Len(HeapValues) :
        [heap EXCEPT ![x] = ValidateWrites(@, HeapValues[i])],
        ValidateOutcome(heap[x], HeapValues[i]))
 
-Next == SetKeyword \/ ClearKeyword \/ PutProperty \/ DelProperty \/ ToggleReq \/ Validate
+Next == SetKeyword \/ ClearKeyword \/ PutProperty \/ DelProperty \/ MoveProperty \/ ToggleReq \/ Validate
 Spec == Init /\ [][Next]_vars
 
 (* design-level claims on the model *)
